@@ -5,6 +5,8 @@
 //! assembler + debugger (`dbg::run_session`) and, by the model driver, on the Lean assembler model +
 //! debugger model (`E15` / `V17` requests); the driver's SPEC answer uses the abstract program's
 //! own origin / statement texts / label table / `.break` positions and `Spec.execAbs` for `eval`.
+//! `B17` requests (C17, breakpoint table): the same kind of session in the NORMAL output mode; the
+//! observable is what `break list` printed (`c17_table_session`, `run_table`, `dbg::break_tables`).
 use crate::asmgen::{self, Item, Operand, Prog, Rendered, Style};
 use crate::cap::Capture;
 use crate::dbg::{run_src, Cmd, Loc, SrcCase};
@@ -686,11 +688,265 @@ pub fn c17_corpus() -> Vec<SrcCase> {
     ]
 }
 
+// ------------------------------------------------------------------------------------ C17, breakpoint table
+
+/// A label of exactly `len` characters that both the assembler and the command grammar read as a label.
+fn gen_label_of_len(rng: &mut Rng, len: usize) -> String {
+    loop {
+        let mut s = String::new();
+        let first = b"abcdefghijklmnopqrstuvwyzABCDEFGHIJKLMNOPQRSTUVWYZ_";
+        s.push(first[rng.below(first.len() as u64) as usize] as char);
+        let more = b"abcdefghijklmnopqrstuvwxyzABCDEFXYZ0123456789__";
+        while s.len() < len {
+            s.push(more[rng.below(more.len() as u64) as usize] as char);
+        }
+        if assembler_label(&s) && nameable(&s) {
+            return s;
+        }
+    }
+}
+
+/// The content of a string literal of exactly `n` characters: letters, blanks, multi-byte
+/// characters (each is ONE character of the cell), no escapes.
+fn gen_string_of_len(rng: &mut Rng, n: usize) -> String {
+    let mut s = String::new();
+    for _ in 0..n {
+        match rng.below(6) {
+            0 => s.push_str(*rng.pick(asmgen::WIDE)),
+            1 => s.push(' '),
+            _ => s.push((b'a' + rng.below(26) as u8) as char),
+        }
+    }
+    s
+}
+
+/// Make the program interesting for the table's two text columns: labels of 11…30 characters
+/// (12 fit the label cell, 13 do not), `.stringz` statements whose text is 24…40 characters (26 fit
+/// the statement cell, 27 do not) with multi-byte characters anywhere, the cut-off position included.
+fn stretch(rng: &mut Rng, p: &mut Prog) -> (usize, usize) {
+    let mut names: Vec<String> = Vec::new();
+    for it in &p.items {
+        if let Item::Stmt { labels, .. } = it {
+            for l in labels {
+                if !names.contains(l) {
+                    names.push(l.clone());
+                }
+            }
+        }
+    }
+    let mut map: Vec<(String, String)> = Vec::new();
+    for n in &names {
+        if rng.chance(3, 5) {
+            loop {
+                let len = *rng.pick(&[10usize, 11, 12, 12, 13, 13, 14, 15, 20, 30]);
+                let cand = gen_label_of_len(rng, len);
+                if !names.contains(&cand) && !map.iter().any(|(_, b)| *b == cand) {
+                    map.push((n.clone(), cand));
+                    break;
+                }
+            }
+        }
+    }
+    let ren = |l: &String| -> String { map.iter().find(|(a, _)| a == l).map(|(_, b)| b.clone()).unwrap_or(l.clone()) };
+    let mut long_strings = 0;
+    for it in p.items.iter_mut() {
+        if let Item::Stmt { labels, op, args } = it {
+            for l in labels.iter_mut() {
+                *l = ren(l);
+            }
+            for a in args.iter_mut() {
+                if let Operand::Label(l) = a {
+                    *l = ren(l);
+                }
+            }
+            if op == ".stringz" && rng.chance(2, 3) {
+                // `.stringz "` + content + `"` = 11 + n characters under the plain layout
+                let n = *rng.pick(&[13usize, 14, 15, 15, 16, 16, 17, 20, 29]);
+                *args = vec![Operand::Str(gen_string_of_len(rng, n))];
+                long_strings += 1;
+            }
+        }
+    }
+    (map.len(), long_strings)
+}
+
+struct TableStats {
+    renamed: usize,
+    long_strings: usize,
+    adds: usize,
+    lists: usize,
+}
+
+/// A session in the NORMAL output mode: breakpoints at statement addresses, at addresses inside
+/// user space that hold no statement, at labels (± offsets), refused ones outside user space, some
+/// removed again; `break list` (bracketed) once or more; `exit`.  Nothing is executed.
+fn c17_table_session(rng: &mut Rng) -> (SrcCase, TableStats) {
+    let mut sp = gen_session_prog(rng, false, true);
+    let (renamed, long_strings) = stretch(rng, &mut sp.prog);
+    let style = if rng.chance(2, 5) { Style::Plain } else { Style::Wild };
+    let lead = rng.chance(1, 2);
+    let r = asmgen::render_spans(rng, &sp.prog, style, lead);
+    let n = r.nwords as u32;
+    let mut cmds = Vec::new();
+    let mut st = TableStats { renamed, long_strings, adds: 0, lists: 0 };
+    if rng.chance(1, 4) {
+        // before anything is added: only the `.break`s of the source, or nothing at all
+        cmds.push(Cmd::BreakListB);
+        st.lists += 1;
+    }
+    let in_user = |a: u32| a >= r.orig as u32 && a < 0xFE00;
+    let mut addrs: Vec<u16> = Vec::new();
+    match rng.below(3) {
+        0 => {
+            // every address of the program and two beyond
+            for k in 0..(n + 2) {
+                addrs.push(r.orig.wrapping_add(k as u16));
+            }
+        }
+        1 => {
+            for k in 0..(n + 2) {
+                if rng.chance(1, 2) {
+                    addrs.push(r.orig.wrapping_add(k as u16));
+                }
+            }
+        }
+        _ => {
+            for _ in 0..1 + rng.below(4) {
+                addrs.push(r.orig.wrapping_add(rng.below(n as u64 + 3) as u16));
+            }
+        }
+    }
+    // addresses holding no statement: far inside user space, its last word; refused ones
+    for _ in 0..rng.below(3) {
+        addrs.push(*rng.pick(&[0xFDFFu16, 0xFDFE, 0xFE00, 0xFFFF, r.orig.wrapping_sub(1), r.orig.wrapping_add(0x100), 0x8000, 0x7FFF]));
+    }
+    // random order: the list sorts itself
+    for i in (1..addrs.len()).rev() {
+        let j = rng.below(i as u64 + 1) as usize;
+        addrs.swap(i, j);
+    }
+    for a in &addrs {
+        cmds.push(Cmd::BreakAdd(Loc::Addr(*a)));
+        if in_user(*a as u32) {
+            st.adds += 1;
+        }
+    }
+    for (name, _) in &r.labels {
+        if rng.chance(2, 3) {
+            let off = if rng.chance(2, 3) { 0 } else { rng.range(-2, 3) as i32 };
+            cmds.push(Cmd::BreakAdd(label_loc(name, off)));
+            st.adds += 1;
+        }
+    }
+    for _ in 0..rng.below(3) {
+        if !addrs.is_empty() {
+            cmds.push(Cmd::BreakRemove(Loc::Addr(*rng.pick(&addrs))));
+        }
+    }
+    cmds.push(Cmd::BreakListB);
+    st.lists += 1;
+    if rng.chance(1, 3) {
+        for _ in 0..1 + rng.below(3) {
+            let a = r.orig.wrapping_add(rng.below(n as u64 + 2) as u16);
+            cmds.push(if rng.chance(1, 2) { Cmd::BreakRemove(Loc::Addr(a)) } else { Cmd::BreakAdd(Loc::Addr(a)) });
+        }
+        cmds.push(Cmd::BreakListB);
+        st.lists += 1;
+    }
+    cmds.push(Cmd::Exit);
+    (make_case("B17", &sp, &r, vec![], cmds), st)
+}
+
+fn fixed_table_case(src: &str, orig: u16, texts: &[&str], labels: &[(&str, usize)], breaks: &[usize], extra: &[u16]) -> SrcCase {
+    let n = texts.len() as u16;
+    let mut cmds = vec![Cmd::BreakListB];
+    for k in 0..n + 2 {
+        let a = orig.wrapping_add(k);
+        if a >= orig && a < 0xFE00 {
+            cmds.push(Cmd::BreakAdd(Loc::Addr(a)));
+        }
+    }
+    for a in extra {
+        cmds.push(Cmd::BreakAdd(Loc::Addr(*a)));
+    }
+    cmds.push(Cmd::BreakListB);
+    cmds.push(Cmd::Exit);
+    SrcCase {
+        tag: "B17",
+        stack: false,
+        fuel: 20_000,
+        inp: vec![],
+        src: src.to_string(),
+        orig,
+        texts: texts.iter().map(|t| t.to_string()).collect(),
+        breaks: breaks.to_vec(),
+        labels: labels.iter().map(|(l, k)| (l.to_string(), *k)).collect(),
+        cmds,
+    }
+}
+
+/// The shapes the table's columns distinguish, by hand.
+pub fn c17_table_corpus() -> Vec<SrcCase> {
+    let s27 = ".stringz \"abcdefghijklmnop\"";
+    let s26 = ".stringz \"abcdefghijklmno\"";
+    let w27 = ".stringz \"abcdefghijklmn\u{e9}\u{1f600}\"";
+    let w28 = ".stringz \"abcdefghijklmn\u{e9}\u{1f600}z\"";
+    let rep = |t: &'static str, k: usize| -> Vec<&'static str> { std::iter::repeat(t).take(k).collect() };
+    let mut v = vec![
+        // label cell: 12 characters fit, 13 do not; statement cell: 26 fit, 27 do not; a label
+        // before a `.break` at the end of the file marks an address without a statement
+        {
+            let src = ".orig x3000\nstart add r0, r0, #1\na_very_long_label_name ld r1, a_very_long_label_name\ntwelve_chars and r0 , r0 ,   r0   ; comment\nthirteenchars .fill x0\n.break\nhalt\nlbl .break\n";
+            fixed_table_case(
+                src,
+                0x3000,
+                &["add r0, r0, #1", "ld r1, a_very_long_label_name", "and r0 , r0 ,   r0", ".fill x0", "halt"],
+                &[("start", 0), ("a_very_long_label_name", 1), ("twelve_chars", 2), ("thirteenchars", 3), ("lbl", 5)],
+                &[4, 5],
+                &[0x3100, 0xFDFF],
+            )
+        },
+        // no breakpoint at all, then every address
+        fixed_table_case("halt\n", 0x3000, &["halt"], &[], &[], &[]),
+        // a `.break` of the source beyond user space still gets its statement text
+        fixed_table_case(".orig xFDFF\na add r0 r0 #0\nb add r0 r0 #1\n.break\nc halt\n", 0xFDFF, &["add r0 r0 #0", "add r0 r0 #1", "halt"], &[("a", 0), ("b", 1), ("c", 2)], &[2], &[]),
+        // operands on several lines with a comment in between: the cell holds line breaks
+        fixed_table_case("add r0,\n r1 ; c \u{e9}\n , r2\n.break\n.orig x5000\nlp ld r0 lp\n.break\n", 0x5000, &["add r0,\n r1 ; c \u{e9}\n , r2", "ld r0 lp"], &[("lp", 1)], &[1, 2], &[]),
+    ];
+    // multi-word directives: every word of the directive shows the directive; multi-byte
+    // characters count as one character each, also at the cut-off position
+    for (text, words) in [(s26, 16usize), (s27, 17), (w27, 17), (w28, 18)] {
+        let src = format!(".orig x4000\nmsg: {}\nk .fill #-1\n", text);
+        let mut texts = rep(text, words);
+        texts.push(".fill #-1");
+        v.push(fixed_table_case(&src, 0x4000, &texts, &[("msg", 0), ("k", words)], &[], &[]));
+    }
+    v
+}
+
+/// Run a `B17` session on the real assembler + debugger in the normal output mode.
+pub fn run_table(cap: &mut Capture, c: &SrcCase) -> String {
+    let obs = crate::dbg::run_session_mode(cap, c.stack, c.fuel, &c.inp, c.src.clone(), c.script(), true);
+    if !obs.line.contains('|') && obs.line != "panic" {
+        return obs.line;
+    }
+    let tabs = crate::dbg::break_tables(&obs.err);
+    let shown = if tabs.is_empty() { "-".to_string() } else { tabs.iter().map(|t| crate::cap::hex(t)).collect::<Vec<_>>().join(",") };
+    format!("{} | {}", obs.line, shown)
+}
+
 pub fn run_c17(o: &crate::Opts) {
     let mut cap = Capture::install();
     let mut sink = crate::Sink::new(o);
     if let Some(path) = &o.replay {
         for line in std::fs::read_to_string(path).unwrap().lines() {
+            if line.starts_with("B17 ") {
+                match SrcCase::parse(line, "B17") {
+                    Some(c) => sink.put(line, &run_table(&mut cap, &c)),
+                    None => sink.put(line, "bad-request"),
+                }
+                continue;
+            }
             match SrcCase::parse(line, "V17") {
                 Some(c) => sink.put(line, &run_src(&mut cap, &c)),
                 None => sink.put(line, "bad-request"),
@@ -712,6 +968,33 @@ pub fn run_c17(o: &crate::Opts) {
             sink.put(&c.request(), &line);
             ncorpus += 1;
         }
+    }
+    // the breakpoint table (normal output mode)
+    let (mut tcases, mut trenamed, mut tlong, mut tadds, mut tlists, mut tcorpus) = (0u64, 0u64, 0u64, 0u64, 0u64, 0u64);
+    let mut row_labels_cut = 0u64;
+    let mut row_lines_cut = 0u64;
+    if o.shard == 0 {
+        for c in c17_table_corpus() {
+            let line = run_table(&mut cap, &c);
+            sink.put(&c.request(), &line);
+            tcorpus += 1;
+        }
+    }
+    let ttotal: u64 = if o.thorough { 16_000 } else { 1_600 };
+    for _ in 0..ttotal / o.nshards as u64 {
+        let (c, st) = c17_table_session(&mut rng);
+        let line = run_table(&mut cap, &c);
+        tcases += 1;
+        trenamed += st.renamed as u64;
+        tlong += st.long_strings as u64;
+        tadds += st.adds as u64;
+        tlists += st.lists as u64;
+        row_labels_cut += c.labels.iter().filter(|(l, _)| l.chars().count() > 12).count() as u64;
+        row_lines_cut += c.texts.iter().filter(|t| t.chars().count() > 26).count() as u64;
+        if samples.len() < 1 && rng.chance(1, 10) {
+            samples.push(format!("{{\"table_source\":{:?},\"script\":{:?}}}", c.src, c.script()));
+        }
+        sink.put(&c.request(), &line);
     }
     for _ in 0..per {
         let (c, na, nl) = c17_session(&mut rng);
@@ -736,5 +1019,5 @@ pub fn run_c17(o: &crate::Opts) {
     }
     let j = |m: &std::collections::BTreeMap<String, u64>| m.iter().map(|(k, v)| format!("\"{}\":{}", k, v)).collect::<Vec<_>>().join(",");
     let n_cases = sink.n;
-    sink.finish(o, &format!("{{\"cases\":{},\"corpus\":{},\"addresses_shown\":{},\"labels_resolved\":{},\"origin_ge_8000\":{},\"token_at_byte_0\":{},\"words_by_statement\":{{{}}},\"outcomes\":{{{}}},\"samples\":[{}]}}", n_cases, ncorpus, naddr, nlabels, high, byte0, j(&ops), j(&heads), samples.join(",")));
+    sink.finish(o, &format!("{{\"cases\":{},\"corpus\":{},\"addresses_shown\":{},\"labels_resolved\":{},\"origin_ge_8000\":{},\"token_at_byte_0\":{},\"words_by_statement\":{{{}}},\"outcomes\":{{{}}},\"table_sessions\":{},\"table_corpus\":{},\"table_labels_renamed_long\":{},\"table_long_stringz\":{},\"table_breakpoints_added\":{},\"table_break_lists\":{},\"table_labels_over_12_chars\":{},\"table_words_with_text_over_26_chars\":{},\"samples\":[{}]}}", n_cases, ncorpus, naddr, nlabels, high, byte0, j(&ops), j(&heads), tcases, tcorpus, trenamed, tlong, tadds, tlists, row_labels_cut, row_lines_cut, samples.join(",")));
 }
